@@ -72,6 +72,8 @@ WRAP = {
     'if_fallback': (_n(_IF_M, _INC), None, 1),
     'fallback_for_if': (_n(_INC, _FOR_M, _IF_M), None, 2),
     'fallback_fallback': (_n(_INCD, _IF_M, _INC), None, 1),
+    # after long content (a guard that only looks at the beginning of the stream)
+    'long': ('<i a="1">x ${1}</i>' * 14 + '@K@', 'x ${1} {# c #}\n' * 14 + '@K@', 1),
 }
 PLACES_OLD = ['top', 'if', 'for', 'def', 'match', 'ifalse']
 PLACES_MARKUP = [p for p in WRAP if WRAP[p][0] is not None]
@@ -395,6 +397,21 @@ def enumerate_cases(thorough=False):
                         if root['kind'] == 'direct' and root['src'] not in ('str', 'stream'):
                             continue
                         cases.append({'cfg': cfg, 'root': root, 'files': files})
+    # a directly constructed template that goes through pickle before its first render: what it
+    # includes is instantiated by the unpickled loader (its own, or a fresh explicit one)
+    for syn in CLASSES:
+        for ch in chains(syn, 2):
+            if not ch:
+                continue
+            files = chain_files(syn, ch, True)
+            for own in (True, False):
+                for t, l in (('off', 'off'), ('on', 'on'), ('off', 'on'), ('on', 'off')):
+                    if own and l != t:
+                        continue
+                    for ar in ((False,) if own else (False, True)):
+                        cases.append({'cfg': {'tmpl': t, 'loader': l if not own else 'dflt', 'opt': ['absent'], 'auto_reload': ar},
+                                      'root': {'kind': 'direct', 'src': 'str', 'own_loader': own, 'pickle': True},
+                                      'files': files})
     return cases
 
 
